@@ -66,7 +66,8 @@ MATRIX = _matrix()
 
 
 def streams(ctx):
-    return [("matrix", len(MATRIX)), ("random", ctx.scale(200, 5000)), ("argparse_return", ctx.scale(150, 3000))]
+    return [("matrix", len(MATRIX)), ("random", ctx.scale(200, 5000)), ("argparse_return", ctx.scale(150, 3000)),
+            ("longdoc", ctx.scale(80, 1500)), ("shapes", ctx.scale(150, 3000))]
 
 
 def _snap_ir(intermediate_repr):
@@ -127,26 +128,40 @@ def observe(fmt, ir, node, cfg):
         CUR["busy"] = False
 
 
-def post_class(intermediate_repr, docstring_format, emit_default_doc, result, OLD):
-    return observe("class", OLD.ir, result, {"style": docstring_format, "edd": emit_default_doc})
+def post_class(intermediate_repr, docstring_format, emit_default_doc, word_wrap, result, OLD):
+    return observe("class", OLD.ir, result, {"style": docstring_format, "edd": emit_default_doc, "ww": word_wrap})
 
 
-def post_pydantic(intermediate_repr, docstring_format, emit_default_doc, result, OLD):
-    return observe("pydantic", OLD.ir, result, {"style": docstring_format, "edd": emit_default_doc})
+def post_pydantic(intermediate_repr, docstring_format, emit_default_doc, word_wrap, result, OLD):
+    return observe("pydantic", OLD.ir, result, {"style": docstring_format, "edd": emit_default_doc, "ww": word_wrap})
 
 
 def post_function(intermediate_repr, function_type, docstring_format, emit_default_doc, type_annotations,
-                  emit_as_kwonlyargs, result, OLD):
-    return observe("function", OLD.ir, result, {"style": docstring_format, "edd": emit_default_doc,
+                  emit_as_kwonlyargs, word_wrap, result, OLD):
+    return observe("function", OLD.ir, result, {"style": docstring_format, "edd": emit_default_doc, "ww": word_wrap,
                                                 "ta": type_annotations, "kwonly": emit_as_kwonlyargs,
                                                 "ft": function_type or OLD.ir.get("type") or "static"})
 
 
-def post_argparse(intermediate_repr, docstring_format, emit_default_doc, result, OLD):
-    return observe("argparse", OLD.ir, result, {"style": docstring_format, "edd": emit_default_doc})
+def post_argparse(intermediate_repr, docstring_format, emit_default_doc, word_wrap, wrap_description, result, OLD):
+    return observe("argparse", OLD.ir, result, {"style": docstring_format, "edd": emit_default_doc, "ww": word_wrap,
+                                                "wd": wrap_description})
 
 
-NARROWED = ("optional->", "union->", "literal->", "list->", "dotted->")
+def single_member_literal(typ):
+    import re
+
+    m = re.match(r"^(?:Optional\[)?Literal\[(.*?)\]\]?$", typ or "")
+    if not m:
+        return False
+    try:
+        v = ast.literal_eval("(%s,)" % m.group(1))
+    except Exception:
+        return False
+    return len(v) == 1
+
+
+NARROWED = ("optional->", "union->", "literal->", "list->", "dotted->", "other->")
 
 
 def classify(fmt, ir, cfg, d):
@@ -169,6 +184,9 @@ def classify(fmt, ir, cfg, d):
             mech = "argparse.union-or-dotted-type-narrowed"
         elif where == "param" and field == "typ" and tk == "list" and dk == "absent" and how == "list->optional":
             mech = "argparse.list-without-default-becomes-optional"
+        elif where == "param" and field == "typ" and how in ("literal->str", "optional->optional") and \
+                single_member_literal(d.get("exp")) and "Literal" not in (got or ""):
+            mech = "argparse.single-member-literal-without-choices"
     else:
         types_in_docstring = fmt == "function" and ta is False
         if style == "numpydoc" and not types_in_docstring and field == "doc" and got is None:
@@ -216,6 +234,13 @@ def gen_case(ctx, stream, idx):
         return irgen.matrix_ir(r, tk, dk, n, pos, with_return=idx % 2 == 1)
     if stream == "random":
         return irgen.rand_ir(r, type_kinds=CORE_TKINDS, default_kinds=CORE_DKINDS, nparams=r.randint(1, 6))
+    if stream == "shapes":
+        # nested / single-member / spaced-member types, delimiter characters in str defaults, punctuation in prose
+        return irgen.rand_ir(r, type_kinds=CORE_TKINDS + ("nested", "nested", "str", "literaldq"), nparams=r.randint(1, 6),
+                             default_kinds=CORE_DKINDS + ("strodd", "strodd"), doc_kinds=("plain", "punct", "punct"))
+    if stream == "longdoc":
+        return irgen.rand_ir(r, type_kinds=CORE_TKINDS, default_kinds=CORE_DKINDS, nparams=r.randint(1, 4),
+                             doc_kinds=("long", "long", "plain"))
     if stream == "probe":
         return irgen.rand_ir(r, nparams=r.randint(0, 4), default_kinds=("none", "code", "emptystr", "absent", "int"),
                              return_default=r.random() < 0.3)
@@ -257,12 +282,18 @@ def run_case(ctx, P, stream, idx):
     for n, (fmt, kw) in enumerate(configs()):
         if stream == "argparse_return" and (fmt != "argparse" or kw["docstring_format"] != "rest"):
             continue  # (Google/NumPy argparse docstrings with a return default are rejected by the unchanged parser)
+        if stream == "shapes" and fmt == "argparse" and any(p["typ"] in irgen.NESTED_TYPES for p in ir0["params"].values()):
+            continue  # argparse has no notation for compound types (they are narrowed: C02's documented findings)
         ir = ir0
         if fmt == "function":
             ft, ir_type = FUNCTION_TYPES[(idx + n) % len(FUNCTION_TYPES)]
             kw = dict(kw, function_type=ft)
             if ir_type is not None:
                 ir = dict(deepcopy(ir0), type=ir_type)
+        # word_wrap alternates (descriptions of the `longdoc` stream exceed the wrap width)
+        kw = dict(kw, word_wrap=(idx + n) % 2 == 0)
+        if fmt == "argparse":
+            kw["wrap_description"] = (idx + n) % 3 == 0
         P.case({"ir": ir, "fmt": fmt, "kw": kw}, nontrivial=bool(ir["params"]), klass="%s/%s" % (stream, fmt),
                sample={"format": fmt, "options": kw, "shape": sh, "ir": ir})
         try:
